@@ -181,19 +181,15 @@ fn extracted_fun_src(
     body_end: usize,
     params: &[(SymbolName, Option<Type>)],
 ) -> String {
-    let return_signature = match return_ty {
-        Some(Type::Any) | None => "".to_owned(),
-        Some(Type::Error { inferred_type, .. }) => match inferred_type {
-            Some(ty) => format!(": {ty}"),
-            None => "".to_owned(),
-        },
-        Some(ty) => format!(": {ty}"),
+    let return_signature = match return_ty.and_then(hint_src) {
+        Some(hint) => format!(": {hint}"),
+        None => "".to_owned(),
     };
 
     let params_signature = params
         .iter()
-        .map(|(param, ty)| match ty {
-            Some(ty) => format!("{}: {}", param.text, ty),
+        .map(|(param, ty)| match ty.as_ref().and_then(hint_src) {
+            Some(hint) => format!("{}: {}", param.text, hint),
             None => param.text.to_owned(),
         })
         .collect::<Vec<_>>()
@@ -206,6 +202,34 @@ fn extracted_fun_src(
         return_signature,
         &src[body_start..body_end]
     )
+}
+
+/// The source text of a type hint for `ty`, or None if `ty` cannot
+/// be written as a hint: `Any` and type checker errors (also nested,
+/// as in `List<Any>`) have no syntax, so the hint is left out.
+fn hint_src(ty: &Type) -> Option<String> {
+    fn denotable(ty: &Type) -> bool {
+        match ty {
+            Type::Any | Type::Error { .. } => false,
+            Type::Tuple(items) => items.iter().all(denotable),
+            Type::Fun {
+                params, return_, ..
+            } => params.iter().all(denotable) && denotable(return_),
+            Type::UserDefined { args, .. } => args.iter().all(denotable),
+            Type::TypeParameter(_) => true,
+        }
+    }
+
+    match ty {
+        // Use what was inferred before the surrounding context
+        // rejected it.
+        Type::Error {
+            inferred_type: Some(inferred_ty),
+            ..
+        } => hint_src(inferred_ty),
+        _ if denotable(ty) => Some(format!("{ty}")),
+        _ => None,
+    }
 }
 
 fn locals_outside_exprs(
